@@ -17,7 +17,7 @@ EXTENDS Scenarios
 
 TargetKinds == {"local", "aux1", "aux2", "aux3", "trans", "selfrec", "mutual", "arrayself", "mapself",
                 "auxarrayself", "anonprop", "anonitems", "anonallof", "anonsibling", "sharedparam", "sharedresp", "diamond",
-                "uptrans", "crosstrans", "recdep", "recmap", "anonimport", "auxcase", "anoncase"}
+                "uptrans", "crosstrans", "recdep", "recmap", "anonimport", "auxcase", "anoncase", "auxempty"}
 Shapes      == {"prim", "object", "arrayref", "tuple", "allof", "map", "nested", "ptrarray", "ref", "additemsref", "nestedfree"}
 HolderKinds == {"prop", "items", "tuple", "addprops", "additems", "allof", "alias", "opbody", "pathbody",
                 "code", "default", "sharedparam", "sharedresp", "nested", "opnested", "opitems",
@@ -27,7 +27,7 @@ AuxHolders  == {"auxresp", "auxparam", "auxpathitem"}
 SecondKinds == {"none", "code", "prop2", "same", "codes2"}
 Collisions  == {"none", "exact", "case", "twoimports", "gennames", "gennames2"}
 
-AuxTargets  == {"aux1", "aux2", "aux3", "trans", "selfrec", "mutual", "auxarrayself", "diamond", "uptrans", "crosstrans", "recdep", "recmap", "auxcase"}
+AuxTargets  == {"aux1", "aux2", "aux3", "trans", "selfrec", "mutual", "auxarrayself", "diamond", "uptrans", "crosstrans", "recdep", "recmap", "auxcase", "auxempty"}
 AnonTargets == {"anonprop", "anonitems", "anonallof", "anonsibling", "anonimport", "anoncase"}
 SharedPtrTargets == {"sharedparam", "sharedresp"}
 
@@ -108,6 +108,10 @@ TargetOf(t, s) ==
     \* two definitions of one auxiliary document that differ by letter case only, both used (the second one by an extra path, see Assemble)
     [] t = "auxcase" -> [ref |-> <<"aux1", "definitions", "N_1">>, rootdefs |-> <<>>,
                        aux |-> [aux1 |-> AuxDoc([N_1 |-> Body(s, HelperIn("aux1")), C_1 |-> Mk([type |-> "boolean"], <<>>), N_7 |-> HelperDef])], params |-> <<>>, resps |-> <<>>]
+    \* two definitions of one auxiliary document whose names both mangle to the EMPTY string (the harness spells them "{}" and "[]"):
+    \* each import falls back on the placeholder name, which must be made unique like any other
+    [] t = "auxempty" -> [ref |-> <<"aux1", "definitions", "N_1">>, rootdefs |-> <<>>,
+                       aux |-> [aux1 |-> AuxDoc([N_1 |-> Body(s, HelperIn("aux1")), N_25 |-> Mk([type |-> "boolean"], <<>>), N_7 |-> HelperDef])], params |-> <<>>, resps |-> <<>>]
     [] t = "arrayself" -> [ref |-> <<"root", "definitions", "N_1">>,
                        rootdefs |-> [N_1 |-> Mk([type |-> "array"], [items |-> RefTo(<<"root", "definitions", "N_1">>)])],
                        aux |-> <<>>, params |-> <<>>, resps |-> <<>>]
@@ -268,6 +272,7 @@ ValidCombo(t, s, h, h2, c) ==
   /\ (h2 = "codes2" => c # "none" /\ h \in {"prop", "code", "nested", "opbody"})
   /\ (h \in {"refsib", "unuseddef", "additems1"} => t \in {"aux1", "local", "anonprop"} /\ h2 \in {"none", "code"})
   /\ (t = "anoncase" => s \in {"object", "allof", "nested"} /\ h \in {"prop", "code", "opbody", "items"} /\ c = "none")
+  /\ (t = "auxempty" => s \in {"prim", "object"} /\ h \in {"prop", "code", "opbody"} /\ c = "none")
   /\ (t = "auxcase" => s \in {"prim", "object"} /\ h \in {"prop", "code", "opbody", "alias"} /\ c = "none")
   /\ (c = "gennames" => h = "nested" /\ t \in {"aux1", "diamond"})
   /\ (c = "gennames2" => h = "allof" /\ t \in {"aux1", "diamond"})
@@ -297,10 +302,13 @@ Assemble(t, s, h, h2, c) ==
       cas    == IF t = "auxcase"
                 THEN ("P_7" :> PathItemWith([get |-> OpId("seventh", [responses |-> Mk(<<>>, ("200" :> Resp([schema |-> RefTo(<<"aux1", "definitions", "C_1">>)])))])]))
                 ELSE <<>>
+      emp    == IF t = "auxempty"
+                THEN ("P_9e" :> PathItemWith([get |-> OpId("ninth", [responses |-> Mk(<<>>, ("200" :> Resp([schema |-> RefTo(<<"aux1", "definitions", "N_25">>)])))])]))
+                ELSE <<>>
       acs    == IF t = "anoncase"
                 THEN ("P_8" :> PathItemWith([get |-> OpId("eighth", [responses |-> Mk(<<>>, ("200" :> Resp([schema |-> RefTo(<<"root", "definitions", "N_1", "properties", "C_3">>)])))])]))
                 ELSE <<>>
-      paths  == ("P_1" :> H.path) @@ S2.path @@ C.path @@ dia @@ xp @@ cas @@ acs
+      paths  == ("P_1" :> H.path) @@ S2.path @@ C.path @@ dia @@ xp @@ cas @@ acs @@ emp
       extra  == (IF DOMAIN params = {} THEN <<>> ELSE [parameters |-> Mk(<<>>, params)]) @@
                 (IF DOMAIN resps = {} THEN <<>> ELSE [responses |-> Mk(<<>>, resps)])
       \* a root without any definition has no "definitions" section at all (the code then starts from a nil map)
